@@ -54,3 +54,45 @@ Proof.
   exists fs, final, cls, cfs, h, c. repeat split; auto.
   intros w Hb Hw. destruct (E w Hb Hw) as (ins & Hd & He). exists ins. split; auto. apply equiv_b_sem. exact He.
 Qed.
+
+(* ---- the machine fetches a compressed instruction from two bytes -------------------------------------------------------- *)
+Definition half_bytes (h : Z) : list Z := [h mod 256; (h / 256) mod 256].
+Lemma legal_low_bits : forallb (fun h => match decode16 h with Some _ => negb (Z.eqb (h mod 4) 3) | None => true end) all16 = true.
+Proof. vm_compute. reflexivity. Qed.
+Lemma decode16_low h c : 0 <= h < 65536 -> decode16 h = Some c -> (h mod 4 =? 3) = false.
+Proof.
+  intros Hh Hd. pose proof legal_low_bits as H. rewrite forallb_forall in H. specialize (H h (all16_in h Hh)).
+  rewrite Hd in H. apply negb_true_iff in H. exact H.
+Qed.
+Ltac Zify.zify_post_hook ::= Z.to_euclidean_division_equations.
+Lemma half_sum h : 0 <= h < 65536 -> (h mod 256) mod 256 + 256 * ((h / 256) mod 256 mod 256) = h.
+Proof. intros H. lia. Qed.
+Ltac Zify.zify_post_hook ::= idtac.
+Lemma fetch_half s h c :
+  0 <= h < 65536 -> loaded s (half_bytes h) -> decode16 h = Some c -> fetch (mem s) (pc s) = Some (expand_c c, 2).
+Proof.
+  intros R L D. unfold fetch, getb.
+  assert (B0: mem s (wrap (pc s)) = h mod 256).
+  { specialize (L 0). rewrite Z.add_0_r in L. apply L. cbn. lia. }
+  assert (B1: mem s (wrap (pc s + 1)) = (h / 256) mod 256) by (apply (L 1); cbn; lia).
+  rewrite B0, B1, (half_sum h R), (decode16_low h c R D), D. reflexivity.
+Qed.
+
+(* a selected rule, at machine level: the two bytes the compressed encoder produced, sitting at the pc, execute (one
+   step of the fetching machine) exactly like the 32-bit instruction they replace, taken with length 2 *)
+Theorem rule_machine v r :
+  rule_check v r = true ->
+  exists fs final cls cfs h,
+    orig_fields (nv_name v) = Some fs /\ assoc_str r construction = Some (final, cls, cfs) /\
+    encode final (pos16_of v cfs) [] = Ok h /\
+    forall w, In (nv_name v) base_mnemonics -> encode (nv_name v) (pos32_of v fs) [] = Ok w ->
+      exists ins, decode32 w = Some ins /\
+        forall s, loaded s (half_bytes h) -> ostate_eq (run_n 1 s) (step ins 2 s).
+Proof.
+  intro H. destruct (rule_encodes v r H) as (fs & final & cls & cfs & h & c & A & B & C & R & D & E).
+  exists fs, final, cls, cfs, h. repeat split; auto.
+  intros w Hb Hw. destruct (E w Hb Hw) as (ins & Hd & He). exists ins. split; auto.
+  intros s L. cbn [run_n]. change (2^16) with 65536 in R. rewrite (fetch_half s h c R L D).
+  pose proof (equiv_b_sem _ _ He 2 s) as Q.
+  destruct (step (expand_c c) 2 s) as [s1|], (step ins 2 s) as [s2|]; simpl in *; auto.
+Qed.
